@@ -10,7 +10,10 @@ SCOPE = ("Decides the transcription and clamp structure of the TFRC sender: the 
          "commutativity and constant folding; the constants (s = MAX_FRAME_SIZE, s/64 floor, initial window 4380, "
          "2 s initial no-feedback timer); every write of the allowed rate outside the constructor carries a floor "
          "(max with MINIMUM_RATE, or with W_init/R in slow start) or is the final ceiling clamp; every halving is "
-         "max(X/2, floor); the ceiling clamp post-dominates every rate write; the bisection loop has a variant. "
+         "max(X/2, floor); the ceiling clamp post-dominates every rate write; the bisection loop has a variant; each update "
+         "form is reached under exactly its RFC 5348 condition (loss increase ends slow start, doubling at most once per "
+         "RTT and never after a loss report, the receive-rate limit is 2*X_recv_set except after a loss increase); the "
+         "feedback report carries the measured RTT sample, receive rate and loss estimate. "
          "Not decided (not applicable to static analysis): the trajectory of X over feedback histories.")
 
 SR = "half_connection::send_rate::"
